@@ -2,8 +2,8 @@
   Model/TreeDerive.lean — the derive as a function into TYPE TREES (`Ts`) instead of text, for the core
   fragment: structs (named / tuple / newtype / unit / empty) and enums (externally, adjacently,
   internally tagged, untagged, per-variant `untagged`) with `rename`, `rename_all`,
-  `rename_all_fields`, `tag`, `content`, `skip`, type parameters (generic items, any instantiation); no
-  `flatten`, `inline`, `optional`, `as`, `type`, `concrete`. Same case analysis as `Derive.itemDef` (types/{named,tuple,newtype,unit,enum}.rs); the two
+  `rename_all_fields`, `tag`, `content`, `skip`, type parameters (generic items, any instantiation); `optional` /
+  `optional = nullable` / `optional_fields` paired with `skip_serializing_if`; no `flatten`, `inline`, `as`, `type`, `concrete`. Same case analysis as `Derive.itemDef` (types/{named,tuple,newtype,unit,enum}.rs); the two
   are tied at run time: the REAL `decl()` of every corpus item in the fragment, parsed, must equal
   `Tree.itemBody` (check C01, stream "tree derive").
   `Props/C01.lean` proves: what the serde model emits for a value of such an item inhabits this tree.
@@ -28,15 +28,25 @@ def nameN (env : Env) (id : Str) (targs : List Ts) : Option Ts :=
 
 def tyTs (cfg : Cfg) (env : Env) (t : RTy) : Option Ts := Builtin.nameTyB cfg.limit (nameN env) t
 
+/-- `format_field`: (the property is written `name?:`, the `| null` of an Option is kept) — field-level
+`optional` / `optional = nullable`, else the container's `optional_fields` for fields of type `Option` -/
+def optMode (of : Opt) (f : Field) : Bool × Bool :=
+  match of, f.attr.optional with
+  | _, .optional => (true, false)
+  | _, .nullable => (true, true)
+  | .optional, .no => (Derive.isOption f.ty, false)
+  | .nullable, .no => (Derive.isOption f.ty, true)
+  | .no, .no => (false, true)
+
 /-- the properties of a named-field body: one per non-skipped field -/
-def fieldsTs (cfg : Cfg) (env : Env) (renameAll : Option Rule) : List Field → Option (List (TsKey × Ts))
+def fieldsTs (cfg : Cfg) (env : Env) (renameAll : Option Rule) (of : Opt) : List Field → Option (List (TsKey × Ts))
   | [] => some []
   | f :: fs => do
-    let rest ← fieldsTs cfg env renameAll fs
+    let rest ← fieldsTs cfg env renameAll of fs
     if f.attr.skip then pure rest
     else do
-      let t ← tyTs cfg env f.ty
-      pure (({ name := fieldKey cfg renameAll f }, t) :: rest)
+      let t ← tyTs cfg env (if (optMode of f).2 then f.ty else Derive.optionInner f.ty)
+      pure (({ name := fieldKey cfg renameAll f, optional := (optMode of f).1 }, t) :: rest)
 
 def tupleTs (cfg : Cfg) (env : Env) : List Field → Option (List Ts)
   | [] => some []
@@ -48,13 +58,13 @@ def tupleTs (cfg : Cfg) (env : Env) : List Field → Option (List Ts)
       pure (t :: rest)
 
 /-- `type_def` (types/mod.rs): the body of a struct or of a variant's content; `tag` = (tag, name) of a tagged struct -/
-def structBody (cfg : Cfg) (env : Env) (renameAll : Option Rule) (tag : Option (Str × Str)) (shape : Shape) (fields : List Field) : Option Ts :=
+def structBody (cfg : Cfg) (env : Env) (renameAll : Option Rule) (of : Opt) (tag : Option (Str × Str)) (shape : Shape) (fields : List Field) : Option Ts :=
   match shape with
   | .unit => some .null
   | .named =>
     if fields.isEmpty && tag.isNone then some .emptyRecord
     else do
-      let fs ← fieldsTs cfg env renameAll fields
+      let fs ← fieldsTs cfg env renameAll of fields
       let tagF : List (TsKey × Ts) := match tag with
         | some (t, n) => [({ name := t }, .lit n)]
         | none => []
@@ -78,17 +88,17 @@ def variantTs (cfg : Cfg) (env : Env) (it : Item) (v : Variant) : Option Ts :=
   let tg := if v.attr.untagged then Derive.Tagged.untagged else Derive.tagged it.attr
   let unitLike := v.unitLike
   match tg with
-  | .untagged => structBody cfg env renameAll none v.shape v.fields
+  | .untagged => structBody cfg env renameAll .no none v.shape v.fields
   | .externally =>
     if unitLike then some (.lit name)
-    else (structBody cfg env renameAll none v.shape v.fields).map fun c => .obj [({ name := name }, c)]
+    else (structBody cfg env renameAll .no none v.shape v.fields).map fun c => .obj [({ name := name }, c)]
   | .adjacently t c =>
     if unitLike then some (.obj [({ name := t }, .lit name)])
-    else (structBody cfg env renameAll none v.shape v.fields).map fun b => .obj [({ name := t }, .lit name), ({ name := c }, b)]
+    else (structBody cfg env renameAll .no none v.shape v.fields).map fun b => .obj [({ name := t }, .lit name), ({ name := c }, b)]
   | .internally t =>
     if unitLike then some (.obj [({ name := t }, .lit name)])
     else match v.shape with
-      | .named => structBody cfg env renameAll (some (t, name)) v.shape v.fields
+      | .named => structBody cfg env renameAll .no (some (t, name)) v.shape v.fields
       | _ => none                                    -- newtype variants of internally tagged enums: outside the fragment
 
 def variantsTs (cfg : Cfg) (env : Env) (it : Item) : List Variant → Option (List Ts)
@@ -108,7 +118,7 @@ def itemBody (cfg : Cfg) (env : Env) (it : Item) : Option Ts :=
       let arms ← variantsTs cfg env it it.variants
       if arms.isEmpty then some .never else pure (.union arms)
   else
-    structBody cfg env it.attr.renameAll (it.attr.tag.map fun t => (t, Derive.tsName it)) it.shape it.fields
+    structBody cfg env it.attr.renameAll it.attr.optionalFields (it.attr.tag.map fun t => (t, Derive.tsName it)) it.shape it.fields
 
 /-- all declarations of a program -/
 def declsOf (cfg : Cfg) (env : Env) : Decls :=
@@ -121,11 +131,26 @@ def fieldOk (cfg : Cfg) (renameAll : Option Rule) (f : Field) : Bool :=
   && !f.attr.skipSerIfNone
   && (f.attr.skip || fieldKey cfg renameAll f == Serde.fieldKey cfg renameAll f)      -- C09: the two renamings agree
 
+def isParam : RTy → Bool
+  | .param _ => true
+  | _ => false
+
+/-- a named field, with the optional machinery: a property written `name?: T` (without `| null`) must be left out by serde when it
+is `None` (`skip_serializing_if = "Option::is_none"`), a property that serde may leave out must be written `name?:` -/
+def fieldOkN (cfg : Cfg) (renameAll : Option Rule) (of : Opt) (f : Field) : Bool :=
+  !f.attr.inline && !f.attr.flatten && f.attr.typeAs.isNone && f.attr.typeOverride.isNone
+  && (f.attr.skip ||
+      (fieldKey cfg renameAll f == Serde.fieldKey cfg renameAll f
+       && (!f.attr.skipSerIfNone || (optMode of f).1)
+       && (!(optMode of f).1 || Derive.isOption f.ty)
+       && (!((optMode of f).1 && !(optMode of f).2) || f.attr.skipSerIfNone)
+       && (of == .no || !isParam f.ty)))
+
 def keysOf (cfg : Cfg) (renameAll : Option Rule) (fields : List Field) : List Str :=
   (fields.filter fun f => !f.attr.skip).map (Serde.fieldKey cfg renameAll)
 
-def bodyOk (cfg : Cfg) (renameAll : Option Rule) (tag : Option Str) (shape : Shape) (fields : List Field) : Bool :=
-  fields.all (fieldOk cfg renameAll)
+def bodyOk (cfg : Cfg) (renameAll : Option Rule) (of : Opt) (tag : Option Str) (shape : Shape) (fields : List Field) : Bool :=
+  (if shape == .named then fields.all (fieldOkN cfg renameAll of) else fields.all (fieldOk cfg renameAll))
   && (shape != .named || ((tag.toList ++ keysOf cfg renameAll fields).Nodup : Bool))
 
 def variantOk (cfg : Cfg) (it : Item) (v : Variant) : Bool :=
@@ -136,15 +161,14 @@ def variantOk (cfg : Cfg) (it : Item) (v : Variant) : Bool :=
       (v.shape != .named || renameAll == Serde.renameAllS it v)
       && (match (if v.attr.untagged then Derive.Tagged.untagged else Derive.tagged it.attr) with
           | .internally t => (v.shape == .named || v.shape == .unit || (v.shape == .tuple && (match v.fields with | [f] => f.attr.skip | _ => false)))
-                             && bodyOk cfg renameAll (some t) v.shape v.fields
-          | .adjacently t c => t != c && bodyOk cfg renameAll none v.shape v.fields
-          | _ => bodyOk cfg renameAll none v.shape v.fields))
+                             && bodyOk cfg renameAll .no (some t) v.shape v.fields
+          | .adjacently t c => t != c && bodyOk cfg renameAll .no none v.shape v.fields
+          | _ => bodyOk cfg renameAll .no none v.shape v.fields))
 
 def itemOk (cfg : Cfg) (it : Item) : Bool :=
   it.attr.typeAs.isNone && it.attr.typeOverride.isNone && it.attr.concrete.isEmpty
-  && it.attr.optionalFields == .no
-  && (if it.isEnum then it.variants.all (variantOk cfg it)
-      else bodyOk cfg it.attr.renameAll it.attr.tag it.shape it.fields
+  && (if it.isEnum then it.attr.optionalFields == .no && it.variants.all (variantOk cfg it)
+      else bodyOk cfg it.attr.renameAll it.attr.optionalFields it.attr.tag it.shape it.fields
            -- a newtype struct whose only field is skipped: not modelled on the serde side
            && !(it.shape == .tuple && (match it.fields with | [f] => f.attr.skip | _ => false)))
 
